@@ -256,8 +256,8 @@ impl Family for Driver {
             argv.push(format!("{},id={i},mode = m {i} ,flag", path.display()));
             gen_args.push(args);
             // pre-existing files of generators that produce files
-            if matches!(outdir, "identical" | "different" | "longer" | "shorter") && matches!(beh.as_str(), "ok1" | "ok2" | "okinfo" | "okwarn" | "oksource") {
-                let p = target.join(crate::fam_driver::gen_file_name(i, 1));
+            if matches!(outdir, "identical" | "different" | "longer" | "shorter") && matches!(beh.as_str(), "ok1" | "ok2" | "okinfo" | "okwarn" | "oksource" | "okshort" | "okwide") {
+                let p = target.join(gen_file_name_for(beh, i, 1));
                 let new = gen_file_contents(i, 1);
                 let content = match outdir {
                     "identical" => new,
@@ -358,13 +358,13 @@ impl Family for Driver {
         for (idx, beh) in gens.iter().enumerate() {
             let i = idx as u64 + 1;
             let want = match beh.as_str() {
-                "ok1" | "okinfo" | "okwarn" | "oksource" => 1,
+                "ok1" | "okinfo" | "okwarn" | "oksource" | "okshort" | "okwide" => 1,
                 "ok2" => 2,
                 _ => 0,
             };
             let mut have_all = want > 0;
             for j in 1..=2u64 {
-                let p = target.join(gen_file_name(i, j));
+                let p = target.join(gen_file_name_for(beh, i, j));
                 let content = std::fs::read_to_string(&p).ok();
                 if j <= want {
                     if content.as_deref() != Some(gen_file_contents(i, j).as_str()) {
@@ -427,6 +427,14 @@ impl Family for Driver {
     }
 }
 
+/// the name of file j of generator `index` under behaviour `beh`
+pub fn gen_file_name_for(beh: &str, index: u64, j: u64) -> String {
+    match (beh, j) {
+        ("okshort", 1) => ((b'a' + (index % 26) as u8) as char).to_string(),
+        ("okwide", 1) => format!("\u{65e5}{index}.cs"),
+        _ => gen_file_name(index, j),
+    }
+}
 /// the second file of a generator lies in a sub-directory (with a blank in its name) of wherever generated files go
 pub fn gen_file_name(index: u64, j: u64) -> String {
     if j == 2 {
